@@ -52,50 +52,141 @@ def _prop_body_expr(prog: Program, cls, name: str) -> Optional[FuncInfo]:
     return prog.lookup(cls.qual, name)
 
 
+def _update_summary(prog: Program, pdr, add: FuncInfo):
+    """Symbolic summary of add_to_graph with the plain methods of the relation class inlined and every loop run once with a generic
+    element: per consistent valuation of the tests, the derived edges (constructor arguments, flags, the iterable of the enclosing
+    loop, whether the new relation is sent through add_to_graph) and the write-backs."""
+    from ..dtable import explore, Sym
+
+    def inline(q: str) -> bool:
+        g = prog.functions.get(q)
+        return g is not None and g.cls is not None and g.cls.qual == pdr.qual and not g.is_property and g is not add
+
+    out = []
+    for val, outcome, calls in explore(prog, add, [Sym("self")], self_type=pdr.qual, inline=inline, generic_loops=True):
+        loops: List[str] = []
+        edges, writes = [], []
+        sent = {c.fn[: -len(".add_to_graph")] for c in calls if c.fn.endswith(".add_to_graph")}
+        for c in calls:
+            if c.fn == "for-begin":
+                loops.append(repr(c.args[0]))
+            elif c.fn == "for-end":
+                loops.pop()
+            elif c.fn in ("self.__class__", "type(self)"):
+                kw = dict(getattr(c, "kwargs", ()) or ())
+                edges.append(dict(args=tuple(repr(a_) for a_ in c.args), inferred=kw.get("inferred"), loop=loops[-1] if loops else None, sent=repr(c) in sent))
+            elif c.fn.endswith(".update_value"):
+                writes.append((c.fn, tuple(repr(a_) for a_ in c.args)))
+        out.append((val, outcome, edges, writes))
+    return out
+
+
+def _judge(problems: Dict[str, str], label: str, edges, kinds, writes, inv, tra, inf):
+    want = {"super"}
+    if inv:
+        want.add("inverse")
+    if tra:
+        want |= {"transitive-out", "transitive-in"}
+    for k in ("super", "inverse"):
+        if k in want and k not in kinds:
+            problems.setdefault(f"calls-{k}", f"[{label}] no {k} edge is derived")
+    if "transitive-out" in want and "transitive-out" not in kinds:
+        problems.setdefault("outgoing", f"[{label}] (s,t)+(t,u) => (s,u) is not derived: edges {[e['args'] for e in edges]}")
+    if "transitive-in" in want and "transitive-in" not in kinds:
+        problems.setdefault("incoming", f"[{label}] (p,s)+(s,t) => (p,t) is not derived: edges {[e['args'] for e in edges]}")
+    for k in set(kinds) - want - {"other"}:
+        problems.setdefault("guard", f"[{label}] a {k} edge is derived although its condition does not hold")
+    for e, k in zip(edges, kinds):
+        if k == "other":
+            problems.setdefault("shape", f"[{label}] an edge {e['args']} (loop {e['loop']}) that is none of super / inverse / transitive is derived")
+        if e["inferred"] is not True:
+            problems.setdefault("inferred-flag", f"[{label}] derived edge {e['args']} is not marked inferred")
+        if not e["sent"]:
+            problems.setdefault("sent", f"[{label}] derived edge {e['args']} is not sent through add_to_graph")
+    wb = [w for w in writes if w[0] == "self.wrapped_field.property_descriptor.update_value" and w[1] == ("self.source.instance", "self.target.instance")]
+    if inf and not wb:
+        problems.setdefault("write-back", f"[{label}] an inferred edge is not written back into the source's field ({writes})")
+    if any(w not in wb for w in writes):
+        problems.setdefault("write-back-args", f"[{label}] write-back {writes} is not (source instance, target instance) through the relation's own descriptor")
+
+
 def pd_closure(prog: Program) -> RuleResult:
     r = RuleResult("PD-CLOSURE", "the incremental update is an instance of the fixpoint rule", floor=10)
     pdr = prog.cls(PDR)
     add = prog.method(pdr.qual, "add_to_graph", inherited=False)
-    called = {c.func.attr for c in calls_in(add.node) if isinstance(c.func, ast.Attribute) and is_self_attr(c.func)}
-    fams = {}
-    for name, f in pdr.methods.items():
-        if name.startswith("infer_"):
-            fams[name] = f
-    # classify families by what they construct
-    kinds: Dict[str, FuncInfo] = {}
-    for name, f in fams.items():
-        seen, _ = self_closure(prog, pdr.qual, f, property_reads=False)
-        ctor = [c for g in seen for c in _relation_ctor_calls(g)]
-        if not ctor:
+    summary = _update_summary(prog, pdr, add)
+    gate_atoms = [a_ for val, *_ in summary for a_ in val if a_[0] == "truth" and "add_to_graph" in a_[1]]
+    gate = gate_atoms[0] if gate_atoms else None
+    T = lambda val, name: val.get(("truth", name))
+
+    # which neighbourhood does a property range over?  property name -> ("out"|"in", anchor expression)
+    def neighbourhood(prop: str):
+        qf = prog.lookup(pdr.qual, prop)
+        if qf is None:
+            return None
+        for cc in calls_in(qf.node):
+            if call_name(cc) in ("get_outgoing_relations_with_condition", "get_incoming_relations_with_condition") and cc.args:
+                return ("out" if "outgoing" in call_name(cc) else "in", src(cc.args[0]))
+        return None
+
+    def classify(e):
+        """super / inverse / transitive-out / transitive-in / other, from the symbolic arguments"""
+        a0, a1, a2 = e["args"]
+        lp = e["loop"]
+        if lp == "self.super_relations" and a0 == f"item(elem({lp}), 0)" and a1 == "self.target" and a2 == f"item(elem({lp}), 1)":
+            return "super"
+        if lp is None and a1 == "self.source" and a0 == "item(self.inverse_domain_and_field, 0)" and a2 == "item(self.inverse_domain_and_field, 1)":
+            return "inverse"
+        if lp is not None and lp.startswith("self."):
+            nb = neighbourhood(lp[len("self."):])
+            if nb == ("out", "self.target") and a0 == "self.source" and a1 == f"elem({lp}).target" and a2 == "self.wrapped_field":
+                return "transitive-out"
+            if nb == ("in", "self.source") and a0 == f"elem({lp}).source" and a1 == "self.target" and a2 == f"elem({lp}).wrapped_field":
+                return "transitive-in"
+        return "other"
+
+    problems: Dict[str, str] = {}
+    seen_kinds = set()
+    for val, outcome, edges, writes in summary:
+        newly = T(val, gate[1]) if gate is not None else True
+        kinds = [classify(e) for e in edges]
+        seen_kinds |= set(kinds)
+        label = ", ".join(f"{k[1]}={v}" for k, v in sorted(val.items()))
+        if not newly:
+            if edges or writes:
+                problems.setdefault("gate", f"[{label}] inference or write-back runs although the edge was already known")
             continue
-        txt = " ".join(src(c) for c in ctor)
-        if f.name in called:
-            if "transitive" in name:
-                kinds["transitive"] = f
-            elif "inverse" in name:
-                kinds["inverse"] = f
-            elif "super" in name:
-                kinds["super"] = f
-    for k in ("super", "inverse", "transitive"):
-        r.check(k in kinds, f"PropertyDescriptorRelation.add_to_graph#calls-{k}", site(add), "", f"{k} inference runs for every newly added edge",
-                f"add_to_graph does not trigger the {k} inference for a newly added edge: facts derivable through it are missing")
-    r.check("update_source_wrapped_field_value" in called, "PropertyDescriptorRelation.add_to_graph#write-back", site(add), "",
-            "inferred edges are written back to the source's field", "inferred edges are not written back to the field: field values and graph disagree")
-    wb = pdr.methods.get("update_source_wrapped_field_value")
-    if wb is not None:
-        cs = [c for c in calls_in(wb.node) if call_name(c) == "update_value"]
-        ok = len(cs) == 1 and [src(a) for a in cs[0].args] == ["self.source.instance", "self.target.instance"] and "self.wrapped_field.property_descriptor" in src(cs[0].func)
-        r.check(ok, "PropertyDescriptorRelation.update_source_wrapped_field_value#args", site(wb), src(cs[0]) if cs else "", "writes target into source's field through the field's descriptor",
-                "write-back does not store the target in the source's field through the relation's own descriptor")
-    # every constructor call: same class, inferred=True, sent through add_to_graph
-    all_ctor = []
-    for g in sorted(pdr.methods.values(), key=lambda x: x.qual):
-        for c in _relation_ctor_calls(g):
-            all_ctor.append((g, c))
-            r.check(const_value(kwarg(c, "inferred")) is True and len(c.args) == 3, f"{g.short}#inferred-flag", site(g, c), src(c),
-                    "derived edge is marked inferred", "a derived edge is not marked inferred (it would be held strongly / not written back)")
+        # a test the path never consulted may go either way: the path has to be right for both completions
+        for inv in ([T(val, "self.inverse_of")] if T(val, "self.inverse_of") is not None else [True, False]):
+            for tra in ([T(val, "self.transitive")] if T(val, "self.transitive") is not None else [True, False]):
+                for inf in ([T(val, "self.inferred")] if T(val, "self.inferred") is not None else [True, False]):
+                    _judge(problems, label + ("" if (inv, tra, inf) == (T(val, "self.inverse_of"), T(val, "self.transitive"), T(val, "self.inferred")) else f" / completed: inverse_of={inv}, transitive={tra}, inferred={inf}"),
+                           edges, kinds, writes, inv, tra, inf)
+    if gate is None:
+        problems.setdefault("gate", "add_to_graph does not branch on the verdict of the base class's add_to_graph (newly added or already known)")
+    n_paths = len(summary)
+    site_add = site(add)
+    spec = [
+        ("PropertyDescriptorRelation.add_to_graph#calls-super", "calls-super", "super inference runs for every newly added edge", "facts derivable through the super-property are missing"),
+        ("PropertyDescriptorRelation.add_to_graph#calls-inverse", "calls-inverse", "inverse inference runs whenever the descriptor declares an inverse", "facts derivable through the inverse are missing"),
+        ("PropertyDescriptorRelation.add_to_graph#calls-transitive", None, "transitive inference runs for transitive descriptors", ""),
+        ("PropertyDescriptorRelation.infer_transitive#outgoing", "outgoing", "(s,t)+(t,u) => (s,u): outgoing edges of the target paired with self.source", "chains asserted root-to-leaf are not closed"),
+        ("PropertyDescriptorRelation.infer_transitive#incoming", "incoming", "(p,s)+(s,t) => (p,t): incoming edges of the source paired with self.target", "chains asserted leaf-to-root are not closed"),
+        ("PropertyDescriptorRelation.add_to_graph#guards", "guard", "each family runs exactly under its condition (inverse declared / transitive descriptor)", "an inference family runs outside its condition"),
+        ("PropertyDescriptorRelation.add_to_graph#newly-added-gate", "gate", "nothing is inferred for an edge that was already known", "the procedure re-runs on known edges"),
+        ("PropertyDescriptorRelation.add_to_graph#edge-shapes", "shape", "every derived edge is a super, inverse or transitive consequence", "an edge outside the update rule is derived"),
+        ("PropertyDescriptorRelation.add_to_graph#inferred-flag", "inferred-flag", "derived edges are marked inferred", "a derived edge is not marked inferred (it would be held strongly / not written back)"),
+        ("PropertyDescriptorRelation.add_to_graph#same-procedure", "sent", "every derived edge goes through the same procedure", "a derived edge is constructed but not sent through add_to_graph"),
+        ("PropertyDescriptorRelation.add_to_graph#write-back", "write-back", "inferred edges are written back to the source's field", "field values and graph disagree"),
+        ("PropertyDescriptorRelation.update_source_wrapped_field_value#args", "write-back-args", "writes target into source's field through the field's descriptor", "the write-back stores the wrong pair"),
+    ]
+    for key, pk, good, badtail in spec:
+        if pk is None:
+            ok = "outgoing" not in problems and "incoming" not in problems and {"transitive-out", "transitive-in"} <= seen_kinds
+            r.check(ok, key, site_add, f"{n_paths} paths", good, "the transitive inference does not run for a transitive descriptor")
+            continue
+        r.check(pk not in problems, key, site_add, f"{n_paths} paths of the update procedure", good, f"{problems.get(pk, '')}: {badtail}")
     # who-may-call: nothing in ontomatic adds relations behind the procedure's back
-    sgadd = prog.method("symbol_graph.SymbolGraph", "add_relation", inherited=False)
     offenders = []
     for f in prog.functions.values():
         if ".ontomatic." not in f.qual:
@@ -107,118 +198,65 @@ def pd_closure(prog: Program) -> RuleResult:
                 offenders.append((f, c))
     r.check(not offenders, "ontomatic#no-direct-add", site(offenders[0][0], offenders[0][1]) if offenders else pdr.loc, src(offenders[0][1]) if offenders else "",
             "all derived edges go through PropertyDescriptorRelation.add_to_graph", "a relation is added to the graph without running the inference procedure on it")
-    # transitive: guard + both directions
-    tr = kinds.get("transitive")
-    if tr is not None:
-        ifs = [s for s in tr.node.body if isinstance(s, ast.If)]
-        ok = len(ifs) == 1 and src(ifs[0].test) == "self.transitive" and not ifs[0].orelse
-        r.check(ok, "PropertyDescriptorRelation.infer_transitive_relations#guard", site(tr), src(ifs[0].test) if ifs else "", "runs for transitive descriptors",
-                "the transitive inference is not guarded by exactly the descriptor's transitivity")
-        dirs = [c.func.attr for s in (ifs[0].body if ifs else []) for c in calls_in(s) if isinstance(c.func, ast.Attribute) and is_self_attr(c.func)]
-        shapes = {}
-        for d in dirs:
-            g = pdr.methods.get(d)
-            if g is None:
-                continue
-            loops = [n for n in walk_local(g.node) if isinstance(n, ast.For)]
-            for lp in loops:
-                for c in _relation_ctor_calls(g):
-                    v = lp.target.id if isinstance(lp.target, ast.Name) else "?"
-                    a = [src(x) for x in c.args]
-                    q = src(lp.iter)
-                    # which neighbourhood does the loop range over?
-                    qf = prog.lookup(pdr.qual, lp.iter.attr) if isinstance(lp.iter, ast.Attribute) and is_self_attr(lp.iter) else None
-                    nb = None
-                    if qf is not None:
-                        for cc in calls_in(qf.node):
-                            if call_name(cc) in ("get_outgoing_relations_with_condition", "get_incoming_relations_with_condition"):
-                                nb = (("out" if "outgoing" in call_name(cc) else "in"), src(cc.args[0]))
-                                cond_ok = "property_descriptor_cls" in src(qf.node)
-                    shapes[d] = (nb, a, v, g, c)
-        want_out = want_in = False
-        for d, (nb, a, v, g, c) in shapes.items():
-            if nb == ("out", "self.target") and a[0] == "self.source" and a[1] == f"{v}.target":
-                want_out = True
-            if nb == ("in", "self.source") and a[0] == f"{v}.source" and a[1] == "self.target":
-                want_in = True
-        r.check(want_out, "PropertyDescriptorRelation.infer_transitive#outgoing", site(tr), str({d: (s[0], s[1]) for d, s in shapes.items()}),
-                "(s,t)+(t,u) => (s,u): outgoing edges of the target paired with self.source",
-                "the direction (s,t)+(t,u) => (s,u) is missing: chains asserted root-to-leaf are not closed")
-        r.check(want_in, "PropertyDescriptorRelation.infer_transitive#incoming", site(tr), str({d: (s[0], s[1]) for d, s in shapes.items()}),
-                "(p,s)+(s,t) => (p,t): incoming edges of the source paired with self.target",
-                "the direction (p,s)+(s,t) => (p,t) is missing: chains asserted leaf-to-root are not closed")
-        # same-descriptor filter on both neighbourhood queries
-        for qn in ("target_outgoing_relations_with_same_descriptor_type", "source_incoming_relations_with_same_descriptor_type"):
-            qf = pdr.methods.get(qn)
-            if qf is not None:
-                lam = [n for n in walk_local(qf.node) if isinstance(n, ast.Lambda)]
-                ok = len(lam) == 1 and isinstance(lam[0].body, ast.Compare) and isinstance(lam[0].body.ops[0], ast.Is) and "property_descriptor_cls" in src(lam[0].body.left) and src(lam[0].body.comparators[0]) == "self.property_descriptor_cls"
-                r.check(ok, f"PropertyDescriptorRelation.{qn}#same-property", site(qf), src(lam[0]) if lam else "", "only edges of the same property are chained",
-                        "the neighbourhood is not filtered to edges of the same descriptor class")
-    # super family: target kept, (domain, field) pairs from super_relations
-    sp = kinds.get("super")
-    if sp is not None:
-        cs = _relation_ctor_calls(sp)
-        loops = [n for n in walk_local(sp.node) if isinstance(n, ast.For)]
-        ok = len(cs) == 1 and len(loops) == 1 and src(loops[0].iter) == "self.super_relations" and isinstance(loops[0].target, ast.Tuple) and \
-            [src(a) for a in cs[0].args] == [src(loops[0].target.elts[0]), "self.target", src(loops[0].target.elts[1])]
-        r.check(ok, "PropertyDescriptorRelation.infer_super_relations#shape", site(sp), src(cs[0]) if cs else "", "(domain, self.target, super field) for every super relation",
-                "super inference does not assert (super domain, same target, super field) for every super relation")
-        srel = pdr.methods.get("super_relations")
-        if srel is not None:
-            ys = [src(n.value) for n in walk_local(srel.node) if isinstance(n, ast.YieldFrom)]
-            r.check("self.direct_super_relations" in ys and "self.role_taker_super_relations" in ys, "PropertyDescriptorRelation.super_relations#both-sources", site(srel), str(ys),
-                    "super properties of the source and of its role taker", "super relations omit the source's own or its role taker's super-property fields")
-    inv = kinds.get("inverse")
-    if inv is not None:
-        cs = _relation_ctor_calls(inv)
-        ok = len(cs) == 1 and src(cs[0].args[1]) == "self.source"
-        guard = [s for s in inv.node.body if isinstance(s, ast.If)]
-        ok = ok and len(guard) == 1 and src(guard[0].test) == "self.inverse_of"
-        r.check(ok, "PropertyDescriptorRelation.infer_inverse_relation#shape", site(inv), src(cs[0]) if cs else "", "(inverse domain, self.source, inverse field) whenever an inverse is declared",
-                "inverse inference does not assert the edge back to self.source whenever the descriptor declares an inverse")
+    # same-descriptor filter on both neighbourhood queries
+    for qn in sorted({e["loop"][len("self."):] for _v, _o, edges, _w in summary for e in edges if e["loop"] and e["loop"].startswith("self.") and neighbourhood(e["loop"][len("self."):])}):
+        qf = prog.lookup(pdr.qual, qn)
+        lam = [n for n in walk_local(qf.node) if isinstance(n, ast.Lambda)]
+        ok = False
+        if len(lam) == 1 and isinstance(lam[0].body, ast.Compare) and len(lam[0].body.ops) == 1 and isinstance(lam[0].body.ops[0], (ast.Is, ast.Eq)):
+            sides = {src(lam[0].body.left), src(lam[0].body.comparators[0])}
+            arg = lam[0].args.args[0].arg
+            ok = sides == {f"{arg}.property_descriptor_cls", "self.property_descriptor_cls"}
+        r.check(ok, f"PropertyDescriptorRelation.{qn}#same-property", site(qf), src(lam[0]) if lam else "", "only edges of the same property are chained",
+                "the neighbourhood is not filtered to edges of the same descriptor class")
+    srel = prog.lookup(pdr.qual, "super_relations")
+    if srel is not None:
+        ys = [src(n.value) for n in walk_local(srel.node) if isinstance(n, ast.YieldFrom)]
+        r.check("self.direct_super_relations" in ys and "self.role_taker_super_relations" in ys, "PropertyDescriptorRelation.super_relations#both-sources", site(srel), str(ys),
+                "super properties of the source and of its role taker", "super relations omit the source's own or its role taker's super-property fields")
     return r
 
 
 def pd_owner(prog: Program) -> RuleResult:
+    """Works on the same symbolic summary as PD-CLOSURE: for every derived edge, the term of its source instance and the term of
+    its field must come from one object (x.source with x.wrapped_field) or from one (instance, field) pair whose producer looks the
+    field up on the class of that instance."""
+    import re
+
     r = RuleResult("PD-OWNER", "the field of an inferred relation belongs to the class of its source instance", floor=4)
     pdr = prog.cls(PDR)
-    for g in sorted(pdr.methods.values(), key=lambda x: x.qual):
-        for c in _relation_ctor_calls(g):
-            s_, t_, f_ = c.args[0], c.args[1], c.args[2]
-            ss, fs = src(s_), src(f_)
-            key = f"{g.short}#source-field"
-            # case 1: both are attributes of one relation object
-            if isinstance(s_, ast.Attribute) and isinstance(f_, ast.Attribute) and s_.attr in ("source", "target") and f_.attr == "wrapped_field":
-                same = src(s_.value) == src(f_.value) and s_.attr == "source"
-                r.check(
-                    same, key, site(g, c), src(c),
-                    f"{fs} is the field of {ss}'s own relation",
-                    f"the derived edge starts at {ss} but carries {fs}, the field of {src(f_.value)}.source's class: with one descriptor on two classes "
-                    f"the write-back looks up a field the source does not have (AttributeError) or updates the wrong field, depending on assertion order",
-                )
+    add = prog.method(pdr.qual, "add_to_graph", inherited=False)
+    seen = {}
+    for val, outcome, edges, writes in _update_summary(prog, pdr, add):
+        for e in edges:
+            seen.setdefault(e["args"], e)
+    for args, e in sorted(seen.items()):
+        a0, a1, a2 = args
+        where = f"loop over {e['loop']}" if e["loop"] else "no loop"
+        key = f"derived-edge({a0}, {a1}, {a2})#source-field"
+        m0 = re.fullmatch(r"(.*)\.(source|target)", a0)
+        m2 = re.fullmatch(r"(.*)\.wrapped_field", a2)
+        if m0 and m2:
+            same = m0.group(1) == m2.group(1) and m0.group(2) == "source"
+            r.check(
+                same, key, site(add), f"{args} ({where})",
+                f"{a2} is the field of {a0}'s own relation",
+                f"the derived edge starts at {a0} but carries {a2}, the field of {m2.group(1)}.source's class: with one descriptor on two classes "
+                f"the write-back looks up a field the source does not have (AttributeError) or updates the wrong field, depending on assertion order",
+            )
+            continue
+        p0 = re.fullmatch(r"item\((.*), 0\)", a0)
+        p2 = re.fullmatch(r"item\((.*), 1\)", a2)
+        if p0 and p2 and p0.group(1) == p2.group(1):
+            x = p0.group(1)
+            me = re.fullmatch(r"elem\((self\.\w+)\)", x)
+            prod = me.group(1) if me else x
+            if re.fullmatch(r"self\.\w+", prod):
+                ok = _pairs_consistent(prog, pdr, ast.parse(prod, mode="eval").body)
+                r.check(ok is True, key, site(add), f"{args} ({where})", "domain and field are produced together from the same class",
+                        f"(domain, field) pairs of {prod} are not produced from one class: {ok}")
                 continue
-            # case 2: loop variables unpacked from a (domain, field) pair produced together
-            lp = None
-            for n in walk_local(g.node):
-                if isinstance(n, ast.For) and isinstance(n.target, ast.Tuple) and [src(e) for e in n.target.elts] == [ss, fs]:
-                    lp = n
-            if lp is not None:
-                ok = _pairs_consistent(prog, pdr, lp.iter)
-                r.check(ok is True, key, site(g, c), src(c), "domain and field are produced together from the same class",
-                        f"(domain, field) pairs of {src(lp.iter)} are not produced from one class: {ok}")
-                continue
-            # case 3: tuple-unpacked from a property returning (instance, field) pairs
-            asg = None
-            for n in walk_local(g.node):
-                if isinstance(n, ast.Assign) and isinstance(n.targets[0], ast.Tuple) and [src(e) for e in n.targets[0].elts] == [ss, fs]:
-                    asg = n
-            if asg is not None:
-                ok = _pairs_consistent(prog, pdr, asg.value)
-                r.check(ok is True, key, site(g, c), src(c), "domain and field are produced together from the same class",
-                        f"(domain, field) pair of {src(asg.value)} is not produced from one class: {ok}")
-                continue
-            r.fail(key, site(g, c), src(c), "cannot relate the source instance to the owner of the field")
+        r.fail(key, site(add), f"{args} ({where})", "cannot relate the source instance of this derived edge to the owner of its field")
     return r
 
 
